@@ -429,6 +429,28 @@ fn main() {
                 None => println!("OK watermark: {count} histories agree with the reference (effective watermark after every step)"),
             }
         }
+        // filter2 <neg 0|1> <And|Or> <xcls> <x> <ycls> <y> <l1> <l2>: `(x > l1) AND/OR (y == l2)` (optionally negated) in both contexts
+        "filter2" => {
+            use varpulis_runtime::engine::compiler::expr_to_sase_predicate;
+            use varpulis_runtime::sase::{SaseEngine, SasePattern};
+            let leaf = |name: &str, op: BinOp, l: &str| Expr::Binary { op, left: Box::new(Expr::Ident(name.into())), right: Box::new(Expr::Int(l.parse().unwrap())) };
+            let bop = if a[3] == "And" { BinOp::And } else { BinOp::Or };
+            let body = Expr::Binary { op: bop, left: Box::new(leaf("x", BinOp::Gt, &a[8])), right: Box::new(leaf("y", BinOp::Eq, &a[9])) };
+            let e = if a[2] == "1" { Expr::Unary { op: UnaryOp::Not, expr: Box::new(body) } } else { body };
+            let mut ev = Event::new("T");
+            for (name, cls, val) in [("x", &a[4], &a[5]), ("y", &a[6], &a[7])] {
+                match cls.as_str() { "missing" => {}, "Null" => { ev = ev.with_field(name, Value::Null) }, _ => { ev = ev.with_field(name, Value::Int(val.parse().unwrap())) } }
+            }
+            let ctx = SequenceContext::new();
+            let stream = eval_filter_expr(&e, &ev, &ctx) == Some(Value::Bool(true));
+            let pred = expr_to_sase_predicate(&e);
+            let mut eng = SaseEngine::new(SasePattern::Seq(vec![SasePattern::Event { event_type: "T".into(), predicate: pred.clone(), alias: Some("a".into()) },
+                                                            SasePattern::Event { event_type: "End".into(), predicate: None, alias: None }]));
+            let _ = eng.process(&ev);
+            let step = !eng.process(&Event::new("End")).is_empty();
+            if stream == step { println!("OK filter2 {:?} on {:?}: stream accepts={stream}, step accepts={step}", e, ev.data); }
+            else { println!("REPRODUCED filter {:?} on event {:?}: `.where` accepts={stream} but the sequence step (predicate {:?}) accepts={step}", e, ev.data, pred); std::process::exit(1); }
+        }
         "filter" => {
             use varpulis_runtime::engine::compiler::expr_to_sase_predicate;
             use varpulis_runtime::sase::{SaseEngine, SasePattern};
